@@ -222,7 +222,16 @@ class Interp:
             g = self.prog.globals.get(obj[2:])
             if g is not None and g.get('const') and 'value' in g:
                 self._tl_ctx = (obj[2:], node)
-                return self._table_load(g['value'], path, st)
+                r = self._table_load(g['value'], path, st)
+                if r == TOP and g.get('init') is not None and concrete_path(path):
+                    r2 = self._init_load(g, path)
+                    if r2 is not None:
+                        return r2
+                return r
+            if g is not None and g.get('const') and g.get('init') is not None and concrete_path(path):
+                r2 = self._init_load(g, path)
+                if r2 is not None:
+                    return r2
         if isinstance(obj, tuple) and obj[0] == 'str':
             return self._str_load(obj[1], path, st)
         cands = []
@@ -264,6 +273,48 @@ class Interp:
         if v == TOP and t and t.get('k') == 'bool':
             return R(0, 1)
         return v
+
+    def _init_load(self, g, path):
+        """Element of a constant aggregate (arrays of structs, function pointers, string pointers) read off its initialiser."""
+        node, t = g['init'], self.prog.type(g['t'])
+        for comp in path:
+            while node is not None and node.get('k') in ('ImplicitCastExpr', 'ExprWithCleanups', 'CXXBindTemporaryExpr', 'ConstantExpr') and node.get('k') != 'InitListExpr':
+                node = node.get('e') if 'e' in node else (node.get('c') or [None])[0]
+            if node is None or node.get('k') != 'InitListExpr' or t is None:
+                return None
+            kids = node.get('c', [])
+            if isinstance(comp, int) and t.get('k') == 'array':
+                if not (0 <= comp < (t.get('n') or 0)):
+                    self.oob.append((comp, t.get('n') or 0))
+                    return None
+                if comp >= len(kids):
+                    return C(0) if self.prog.type(t.get('el')).get('k') in ('int', 'bool', 'enum') else None
+                node, t = kids[comp], self.prog.type(t.get('el'))
+            elif isinstance(comp, str) and t.get('k') == 'rec':
+                rec = self.prog.records.get(t.get('rec'))
+                if rec is None:
+                    return None
+                idx = next((i for i, f in enumerate(rec['fields']) if f['d'][2:] == comp), None)
+                if idx is None or idx >= len(kids):
+                    return None
+                node, t = kids[idx], self.prog.type(rec['fields'][idx]['t'])
+            else:
+                return None
+        while node is not None and node.get('k') in ('ImplicitCastExpr', 'ConstantExpr', 'CStyleCastExpr') and 'cv' not in node:
+            node = node.get('e')
+        if node is None:
+            return None
+        if 'cv' in node and isinstance(node['cv'], int):
+            return C(node['cv'])
+        if node.get('k') == 'DeclRefExpr' and node.get('dk') in ('Function', 'CXXMethod'):
+            return ('fn', node['d'])
+        if node.get('k') == 'UnaryOperator' and node.get('op') == '&':
+            e = node.get('e')
+            if e and e.get('k') == 'DeclRefExpr' and e.get('dk') in ('Function', 'CXXMethod'):
+                return ('fn', e['d'])
+        if node.get('k') == 'StringLiteral':
+            return P(('str', node.get('s', '')), (0,))
+        return None
 
     def _table_load(self, val, path, st):
         def rec(v, p):
@@ -1160,7 +1211,28 @@ class Interp:
             else:
                 for s, l in self.lv({'k': 'MaterializeTemporaryExpr', 'c': [on], '_id': on['_id'], 't': on.get('t')}, st, fr):
                     states.append((s, P(*l) if l else ('ptop', 'obj', False)))
-        # ---- callee not statically known (function pointer / std::function)
+        # ---- callee not statically known: a plain function pointer whose value the analysis knows
+        if not callee.get('m') and n.get('fn') is not None and n['k'] == 'CallExpr':
+            out, rest = [], []
+            for s, fv in self.ev(n['fn'], st, fr):
+                fd = self.prog.functions.get(fv[1]) if fv[0] == 'fn' else None
+                if fd is None:
+                    rest.append(s)
+                    continue
+                callee2 = {'q': fd['q'], 'm': fd['id'], 'inrepo': True}
+                if fd.get('rec'):
+                    callee2['rec'] = fd['rec']
+                as_lv2 = [bool(self.T(p_['t']) and self.T(p_['t']).get('k') == 'ref') for p_ in fd['params']][:len(argnodes)]
+                as_lv2 += [False] * (len(argnodes) - len(as_lv2))
+                for s2, vals in self.ev_list(argnodes, s, fr, as_lv2):
+                    out += self.dispatch(n, s2, fr, callee2, None, vals, argnodes)
+            if not rest:
+                return out
+            if out:
+                for s in rest:
+                    for s2, vals in self.ev_list(argnodes, s, fr, [False] * len(argnodes)):
+                        out += self.dispatch(n, s2, fr, callee, None, vals, argnodes)
+                return out
         fdef = self.prog.functions.get(callee.get('m')) if callee.get('m') else None
         # ---- arguments: reference parameters receive locations
         as_lv = []
